@@ -238,6 +238,21 @@ func c18Cases(thorough bool) []c18Case {
 		}
 	}
 
+	// ---- G: referrers / digest tags requested on the entry or inherited from the defaults block
+	for _, sw := range [][]string{{"referrers"}, {"digestTags"}, {"referrers", "digestTags"}, {"digestTags", "forceRecursive"}, {"referrers", "fastCheck"}} {
+		for _, inDef := range []bool{false, true} {
+			for _, p := range []c18Pop{{"S-base", "T-empty"}, {"S-dt", "T-empty"}, {"S-dt", "T-part"}, {"S-idx", "T-moved"}, {"S-base", "T-same"}} {
+				for _, feat := range []string{"", "noref"} {
+					for _, sh := range []c18Entry{{Type: "repository", Allow: []string{"v.*", "latest"}}, {Type: "image", SrcTag: "latest", TgtTag: "latest"}, {Type: "image", SrcTag: "v1", TgtTag: "one"}, {Type: "registry", Allow: []string{".*"}}} {
+						e := sh
+						e.Switches, e.InDefaults = sw, inDef
+						cs = append(cs, c18Case{Block: "G", Entries: []c18Entry{e}, Parallel: 1, Action: "copy", Src: p.Src, Tgt: p.Tgt, TgtFeat: feat})
+					}
+				}
+			}
+		}
+	}
+
 	// ---- F: lasting refusals (a run that cannot mirror a selected tag must not report success)
 	for _, fault := range []string{"tgt-refuses:v1", "tgt-refuses:v2", "tgt-refuses:latest", "src-blob-gone"} {
 		for _, par := range []int{0, 1, 2} {
